@@ -4,7 +4,7 @@ from lib import *
 from hist import *
 from c05 import merged_items, single_elem
 
-TARGETS = [b"", b"tgt", b"sub/tgt", b"tgt/", b"./tgt", b"missing/deep"]
+TARGETS = [b"", b"tgt", b"sub/tgt", b"tgt/", b"./tgt", b"missing/deep", b"tgt/.", b"./sub/./tgt", b"sub//tgt", b"sub/../tgt"]
 EXT_LISTS = [[], [b".go"], [b".go", b".md", b"Makefile"], [b"o", b".go"], [b"Makefile"], [b""], [b"a"],
              [b".go", b" .md"], [b".md ", b"\t.go"], [b"", b".md"],      # entries are compared as given: no trimming
              [b".go", b".md", b".go"], [b".md", b".md"],                  # duplicates
